@@ -295,6 +295,30 @@ MUTANTS: dict[str, dict[str, list[tuple[str, str, str]]]] = {
                     self._results.put_nowait(task.failure(err))""",
                                             """                except forml.AnyError as err:
                     LOGGER.warning('Task failed: %s', err)""")],
+        'gateway-remembers-last-accept': [('forml/provider/gateway/rest.py',
+                                           """        accept = request.headers.get('accept')
+        if accept:
+            accept = layout.Encoding.parse(accept)""",
+                                           """        accept = request.headers.get('accept')
+        if accept:
+            accept = self._accept = layout.Encoding.parse(accept)
+        else:
+            accept = getattr(self, '_accept', None)""")],
+        'gateway-body-buffer-shared': [('forml/provider/gateway/rest.py',
+                                        """        payload = await request.body()""",
+                                        """        chunks = self.__dict__.setdefault('_chunks', [])
+        chunks.clear()
+        async for chunk in request.stream():
+            chunks.append(chunk)
+        payload = b''.join(chunks)""")],
+        'gateway-answers-half-a-body': [('forml/provider/gateway/rest.py',
+                                         """        payload = await request.body()""",
+                                         """        payload = b''
+        try:
+            async for chunk in request.stream():
+                payload += chunk
+        except reqmod.ClientDisconnect:
+            payload = payload[: payload.rfind(b'}') + 1] + b']'""")],
         'worker-dies-on-platform-error': [('forml/runtime/_service/prediction.py',
                                            """                except forml.AnyError as err:
                     self._results.put_nowait(task.failure(err))
